@@ -646,10 +646,15 @@ func ruleErrorFlow(r *Report, id, text string, floor int, fns []string, exceptio
 						return
 					}
 				}
+				// a helper that only hands on the error of one call stands for that call
+				through := ""
+				if sc := c.Call.StaticCallee(); sc != nil && isHelper(sc) {
+					through = passThroughError(sc)
+				}
 				for _, e := range exceptions {
 					// an exception names a function of the anchored root; statements moved into a
 					// helper below that root keep it
-					if e.callee == callee && (e.fn == fnName(f) || ((e.fn == name || strings.HasPrefix(e.fn, name+"$")) && isHelper(topFn(f)))) {
+					if (e.callee == callee || (through != "" && e.callee == through)) && (e.fn == fnName(f) || ((e.fn == name || strings.HasPrefix(e.fn, name+"$")) && isHelper(topFn(f)))) {
 						r.Note("%s: dropped error of %s in %s accepted: %s", id, callee, e.fn, e.reason)
 						return
 					}
@@ -1259,15 +1264,32 @@ func ruleChannelClone(r *Report) {
 		h.Check(ok, "(*commit.Commit).Clone/buffers", r.P.Pos(fn.Pos()), "clones each buffer in the loop over Updates", "Commit.Clone does not clone the update buffers")
 	}
 	if fn := r.Anchor("(*commit.Log).Append"); fn != nil {
-		wt := callsTo(fn, false, "(*commit.Commit).WriteTo")
-		fl := callsTo(fn, false, "(*iostream.Writer).Flush")
+		// through unexported helpers: (inner call, call site in Append)
+		type at struct{ inner, site ssa.Instruction }
+		var wt, fl []at
 		var gos int
-		allInstrs(fn, func(ins ssa.Instruction) {
+		deepVisit(fn, func(ins, site ssa.Instruction) {
 			if _, isGo := ins.(*ssa.Go); isGo {
 				gos++
 			}
+			if cc, _, _ := callCommon(ins); cc != nil {
+				switch {
+				case calleeIs(cc, "(*commit.Commit).WriteTo"):
+					wt = append(wt, at{ins, site})
+				case calleeIs(cc, "(*iostream.Writer).Flush"):
+					fl = append(fl, at{ins, site})
+				}
+			}
 		})
-		h.Check(len(wt) == 1 && len(fl) == 1 && gos == 0 && canReach(wt[0], fl[0]), "(*commit.Log).Append", r.P.Pos(fn.Pos()), "WriteTo ≺ Flush, synchronously", "Log.Append does not serialise and flush the commit before returning (the buffers it references are reused afterwards)")
+		ordered := false
+		if len(wt) == 1 && len(fl) == 1 {
+			if wt[0].inner.Parent() == fl[0].inner.Parent() {
+				ordered = canReach(wt[0].inner, fl[0].inner)
+			} else {
+				ordered = wt[0].site != fl[0].site && canReach(wt[0].site, fl[0].site)
+			}
+		}
+		h.Check(ordered && gos == 0, "(*commit.Log).Append", r.P.Pos(fn.Pos()), "WriteTo ≺ Flush, synchronously", "Log.Append does not serialise and flush the commit before returning (the buffers it references are reused afterwards)")
 	}
 }
 
@@ -1806,4 +1828,29 @@ func reachesFn(fn *ssa.Function, name string, depth int) bool {
 		}
 	})
 	return hit
+}
+
+// passThroughError: the one callee whose error result fn returns unchanged on every return (""
+// if fn computes its error in any other way).
+func passThroughError(fn *ssa.Function) string {
+	name := ""
+	for _, ret := range returnsOf(fn) {
+		if len(ret.Results) == 0 {
+			return ""
+		}
+		v := norm(ret.Results[len(ret.Results)-1])
+		if ex, ok := v.(*ssa.Extract); ok {
+			v = norm(ex.Tuple)
+		}
+		c, ok := v.(*ssa.Call)
+		if !ok {
+			return ""
+		}
+		n := calleeShort(&c.Call)
+		if n == "" || (name != "" && n != name) {
+			return ""
+		}
+		name = n
+	}
+	return name
 }
